@@ -528,7 +528,7 @@ def mm_validate_call_tree(ctx: Ctx, pid: str):
     ok = False
     for ex, e in apps:
         lp = loops(e)
-        if lp and is_call_to(lp[0][1], "chain") and {init.param(1), init.param(2)} <= set(lp[0][1][2]):
+        if lp and is_call_to(lp[0][1], "chain") and {init.param(1), init.param(2)} <= set(lp[0][1][2]) and py_guard(e) is True:
             ok = True
     ctx.check(ok, f"{pid}.validation-applied", init.site, "MethodMap.__init__.validate-all", found="; ".join(f"{tstr(e.call)[:80]} over {[tstr(i) for i in loop_iters(e)]}" for _, e in apps) or "none",
               required="validate_root_call_tree for every method and every transaction")
